@@ -311,15 +311,18 @@ def rule_type_checks(ctx: Ctx, rule: str) -> None:
         ctx.ob(rule, f'_wcmatch:_Match.match/{norm_src(u.func)}@{i}', ok and len(conds) >= 2, repo.loc('_wcmatch', u),
                'dominated by both isinstance type tests', str(ok),
                witness="globmatch(b'a', 'a', flags=REALPATH) must raise TypeError, not answer")
-    gi = repo.func('glob', 'Glob.__init__')
-    qg = fq(gi)
-    r2 = [r for r in qg.stmts(lambda x: isinstance(x, ast.Raise)) if r.exc is not None and norm_src(r.exc).startswith('TypeError')]
-    ctx.floor(rule, 'TypeError raises in Glob.__init__', len(r2), 1)
-    tests = {t for r in r2 for t, p in qg.guards(r) if 'isinstance(temp' in t}
-    cn = [n for n in qg.cfg.nodes if n.kind == 'cond' and norm_src(n.ast) in tests]
-    for i, u in enumerate(qg.calls(lambda s: s == 'self._parse_patterns'), 1):
-        ok = any(qg.cfg.dominates(c.id, qg.node_of(u)) for c in cn)
-        ctx.ob(rule, f'glob:Glob.__init__/_parse_patterns@{i}', ok, repo.loc('glob', u), 'dominated by the root_dir type test', str(ok),
+    from .common import site_events
+    sites = site_events(repo, 'glob', 'Glob.__init__', lambda c: norm_src(c.func) == 'self._parse_patterns', keep_exits=True, all_paths=True,
+                        inline_only={'_wcparse:no_negate_flags', 'glob:_flag_transform'}, inline=True, max_paths=60000)
+    ctx.floor(rule, 'pattern parsing passes in Glob.__init__', len(sites), 2)
+    for i, (c0, hits, paths) in enumerate(sites, 1):
+        raising = [p for p in paths if p.raised == 'TypeError']
+        tests = {list(p.decisions)[-1] for p in raising if p.decisions}
+        ok = bool(raising) and bool(hits) and all(k.startswith('isinstance(') for k in tests) and \
+            all(any(t in p.decisions for t in tests) for p, _e in hits)
+        ctx.ob(rule, f'glob:Glob.__init__/_parse_patterns@{i}', ok, repo.loc('glob', c0),
+               'every path that parses patterns has passed the root_dir / pattern type test (the failing side raises TypeError)',
+               f'{len(hits)} parsing paths, {len(raising)} raising paths, tests {sorted(t[:50] for t in tests)}',
                witness="glob('*', root_dir=b'.') must raise TypeError")
 
 
